@@ -14,7 +14,7 @@
 (*   <<"CONSUMED", lines, "FAILS", n, ...>>                                *)
 (* is printed when every line has been consumed.                           *)
 (***************************************************************************)
-EXTENDS Rfc1951, DeflateParams, DeflateContract, InflateContract, Json, IOUtils
+EXTENDS Rfc1951, DeflateParams, DeflateContract, InflateContract, Checksums, CApi, Json, IOUtils
 
 Rec == ndJsonDeserialize(IOEnv.TRACE)
 
@@ -27,9 +27,10 @@ VARIABLES
   dc,     \* compressor-side contract state
   ds,     \* low-level decoder objects: id -> InflateContract!DInit-shaped record
   ss,     \* streaming inflate objects: id -> SInit-shaped record
+  cc,     \* C stream: running checksum <<hi, lo>> of consumed input (deflate) / output (inflate)
   nfail, nrules, seen
 
-vars == <<l, acc, cs, ip, cid, dc, ds, ss, nfail, nrules, seen>>
+vars == <<l, acc, cs, ip, cid, dc, ds, ss, cc, nfail, nrules, seen>>
 
 Objs == 1..12
 DS0 == [o \in Objs |-> DInit]
@@ -38,7 +39,7 @@ SS0 == [o \in Objs |-> SInit]
 NoAcc == [ph |-> "none"]
 
 Init == /\ l = 1 /\ acc = NoAcc /\ cs = 0 /\ ip = 0 /\ cid = 0 /\ dc = CInit
-        /\ ds = DS0 /\ ss = SS0
+        /\ ds = DS0 /\ ss = SS0 /\ cc = <<0, 1>>
         /\ nfail = 0 /\ nrules = 0 /\ seen = {}
 
 E == Rec[l]
@@ -64,13 +65,13 @@ Keep(vs) == UNCHANGED vs
 EvCase ==
   /\ Is("case")
   /\ cid' = l /\ l' = l + 1 /\ acc' = NoAcc /\ cs' = 0 /\ ip' = 0 /\ dc' = CInit
-  /\ ds' = DS0 /\ ss' = SS0
+  /\ ds' = DS0 /\ ss' = SS0 /\ cc' = <<0, 1>>
   /\ Keep(<<nfail, nrules, seen>>)
 
 EvInput ==
   /\ Is("input")
   /\ ip' = l /\ l' = l + 1
-  /\ Keep(<<acc, cs, cid, dc, ds, ss, nfail, nrules, seen>>)
+  /\ Keep(<<acc, cs, cid, dc, ds, ss, cc, nfail, nrules, seen>>)
 
 \* a stream event: initialise the acceptor; the line is consumed when it terminates
 EvStream ==
@@ -79,18 +80,18 @@ EvStream ==
   /\ acc' = AccInit(E.zlib, E.mode = "produce", CutsOf(E), PlenOf(l),
                       HasF(E, "ignore_adler") /\ E.ignore_adler,
                       IF HasF(E, "cap") THEN E.cap ELSE 20000)
-  /\ Keep(<<l, ip, cid, dc, ds, ss, nfail, nrules, seen>>)
+  /\ Keep(<<l, ip, cid, dc, ds, ss, cc, nfail, nrules, seen>>)
 
 AccRun ==
   /\ acc # NoAcc /\ ~Terminal(acc)
   /\ acc' = Step(acc, Rec[cs].z, PlainOf(cs))
   /\ seen' = seen \cup {acc'.lastwhat}
-  /\ Keep(<<l, cs, ip, cid, dc, ds, ss, nfail, nrules>>)
+  /\ Keep(<<l, cs, ip, cid, dc, ds, ss, cc, nfail, nrules>>)
 
 EvStreamDone ==
   /\ l <= Len(Rec) /\ E.ev = "stream" /\ cs = l /\ Terminal(acc)
   /\ l' = l + 1
-  /\ Keep(<<acc, cs, ip, cid, dc, ds, ss, nfail, nrules, seen>>)
+  /\ Keep(<<acc, cs, ip, cid, dc, ds, ss, cc, nfail, nrules, seen>>)
 
 -----------------------------------------------------------------------------
 (* compressor output judged against the configuration (C01 C02 C09 C10 C11 *)
@@ -141,7 +142,7 @@ EvCompressed ==
         /\ IF HasF(cfg, "flags") /\ cfg.flags # m.flags
              THEN PrintT(<<"DRIFT", "flags", CaseId, cfg.flags, m.flags>>) ELSE TRUE
   /\ l' = l + 1
-  /\ Keep(<<acc, cs, ip, cid, dc, ds, ss, seen>>)
+  /\ Keep(<<acc, cs, ip, cid, dc, ds, ss, cc, seen>>)
 
 \* the crate's own decoder on the compressor's output (C01)
 EvRoundtrip ==
@@ -156,14 +157,14 @@ EvRoundtrip ==
                    d.adler = AdlerSeq(AdlerInit, SubSeq(p, 1, n)), "roundtrip_bytes")
      IN Report(fails, 3)
   /\ l' = l + 1
-  /\ Keep(<<acc, cs, ip, cid, dc, ds, ss, seen>>)
+  /\ Keep(<<acc, cs, ip, cid, dc, ds, ss, cc, seen>>)
 
 \* a panic, hang or crash in the code under test is never allowed
 EvBad ==
   /\ l <= Len(Rec) /\ E.ev \in {"panic", "hang", "crash"} /\ (acc = NoAcc \/ Terminal(acc))
   /\ Report(<<E.ev \o "_in_" \o E.where>>, 1)
   /\ l' = l + 1
-  /\ Keep(<<acc, cs, ip, cid, dc, ds, ss, seen>>)
+  /\ Keep(<<acc, cs, ip, cid, dc, ds, ss, cc, seen>>)
 
 -----------------------------------------------------------------------------
 (* low-level compress calls (C02, C12, C16)                                 *)
@@ -172,7 +173,7 @@ EvCompNew ==
   /\ Is("comp_new")
   /\ dc' = CInit
   /\ l' = l + 1
-  /\ Keep(<<acc, cs, ip, cid, ds, ss, nfail, nrules, seen>>)
+  /\ Keep(<<acc, cs, ip, cid, ds, ss, cc, nfail, nrules, seen>>)
 
 Adl(c) == c.adler
 
@@ -189,7 +190,7 @@ EvComp ==
      IN /\ Report(fails, 6)
         /\ dc' = [CompNext(dc, e) EXCEPT !.adler = newad]
   /\ l' = l + 1
-  /\ Keep(<<acc, cs, ip, cid, ds, ss, seen>>)
+  /\ Keep(<<acc, cs, ip, cid, ds, ss, cc, seen>>)
 
 \* a qualifying flush return: the stream event before it parsed the output so far
 EvFlushpoint ==
@@ -207,7 +208,7 @@ EvFlushpoint ==
                  "sync_flush_ends_with_empty_stored_block_on_byte_boundary")
      IN Report(fails, 2)
   /\ l' = l + 1
-  /\ Keep(<<acc, cs, ip, cid, dc, ds, ss, seen>>)
+  /\ Keep(<<acc, cs, ip, cid, dc, ds, ss, cc, seen>>)
 
 -----------------------------------------------------------------------------
 (* deflate() wrapper calls (C14)                                            *)
@@ -217,7 +218,7 @@ EvDefl ==
   /\ Report(DeflRules(dc, E), 9)
   /\ dc' = DeflNext(dc, E)
   /\ l' = l + 1
-  /\ Keep(<<acc, cs, ip, cid, ds, ss, seen>>)
+  /\ Keep(<<acc, cs, ip, cid, ds, ss, cc, seen>>)
 
 EvDeflEnd ==
   /\ Is("defl_end")
@@ -225,7 +226,7 @@ EvDeflEnd ==
          fails == If(~e.misuse => e.ended, "driver_loop_reaches_stream_end")
      IN Report(fails, 1)
   /\ l' = l + 1
-  /\ Keep(<<acc, cs, ip, cid, dc, ds, ss, seen>>)
+  /\ Keep(<<acc, cs, ip, cid, dc, ds, ss, cc, seen>>)
 
 
 -----------------------------------------------------------------------------
@@ -252,7 +253,7 @@ EvDNew ==
   /\ Is("dnew")
   /\ ds' = [ds EXCEPT ![E.obj] = DInit]
   /\ l' = l + 1
-  /\ Keep(<<acc, cs, ip, cid, dc, ss, nfail, nrules, seen>>)
+  /\ Keep(<<acc, cs, ip, cid, dc, ss, cc, nfail, nrules, seen>>)
 
 EvDec ==
   /\ Is("dec")
@@ -262,7 +263,7 @@ EvDec ==
      IN /\ Report(fails, 16)
         /\ ds' = [ds EXCEPT ![e.obj] = DecNext(d, e, AdlerSeq(d.dig, e.data))]
   /\ l' = l + 1
-  /\ Keep(<<acc, cs, ip, cid, dc, ss, seen>>)
+  /\ Keep(<<acc, cs, ip, cid, dc, ss, cc, seen>>)
 
 \* the driver loop of the harness ended: a valid, completely supplied stream with enough
 \* output space must have finished (C03); drivers never spin without progress (C05/C08)
@@ -276,14 +277,14 @@ EvDecEnd ==
            \o Iff("invalid_stream_never_done", K.v \in {"rej", "starved"} /\ ~(K.why = "dist_before_start" /\ e.wrap) => ~d.done)
      IN Report(fails, 3)
   /\ l' = l + 1
-  /\ Keep(<<acc, cs, ip, cid, dc, ds, ss, seen>>)
+  /\ Keep(<<acc, cs, ip, cid, dc, ds, ss, cc, seen>>)
 
 \* C05: a parameter error leaves the decoder state untouched (serialised state compared)
 EvStateSame ==
   /\ Is("state_same")
   /\ Report(Iff("bad_param_leaves_state_untouched", E.same), 1)
   /\ l' = l + 1
-  /\ Keep(<<acc, cs, ip, cid, dc, ds, ss, seen>>)
+  /\ Keep(<<acc, cs, ip, cid, dc, ds, ss, cc, seen>>)
 
 \* C07 / C18 / C19: two runs over the same stream must agree
 EvEquiv ==
@@ -297,7 +298,7 @@ EvEquiv ==
            \o Iff("equiv_same_consumed", a.cin = b.cin)
      IN Report(fails, 3)
   /\ l' = l + 1
-  /\ Keep(<<acc, cs, ip, cid, dc, ds, ss, seen>>)
+  /\ Keep(<<acc, cs, ip, cid, dc, ds, ss, cc, seen>>)
 
 \* one-shot vector functions (C03, C08)
 EvVec ==
@@ -314,7 +315,7 @@ EvVec ==
            \o Iff("vec_invalid_stream_not_ok", K.v \in {"rej", "starved"} => e.status # "Ok")
      IN Report(fails, 4)
   /\ l' = l + 1
-  /\ Keep(<<acc, cs, ip, cid, dc, ds, ss, seen>>)
+  /\ Keep(<<acc, cs, ip, cid, dc, ds, ss, cc, seen>>)
 
 \* decompress_slice_iter_to_slice (C03)
 EvSliceIter ==
@@ -329,14 +330,14 @@ EvSliceIter ==
            \o Iff("sliceiter_count_within_buffer", e.status = "Ok" => e.n <= e.out_len)
      IN Report(fails, 3)
   /\ l' = l + 1
-  /\ Keep(<<acc, cs, ip, cid, dc, ds, ss, seen>>)
+  /\ Keep(<<acc, cs, ip, cid, dc, ds, ss, cc, seen>>)
 
 \* streaming inflate wrapper (C13)
 EvInfNew ==
   /\ Is("inf_new")
   /\ ss' = [ss EXCEPT ![E.obj] = SInit]
   /\ l' = l + 1
-  /\ Keep(<<acc, cs, ip, cid, dc, ds, nfail, nrules, seen>>)
+  /\ Keep(<<acc, cs, ip, cid, dc, ds, cc, nfail, nrules, seen>>)
 
 EvInf ==
   /\ Is("inf")
@@ -346,7 +347,7 @@ EvInf ==
      IN /\ Report(fails, 13)
         /\ ss' = [ss EXCEPT ![e.obj] = InfNext(s, e, AdlerSeq(s.dig, e.data))]
   /\ l' = l + 1
-  /\ Keep(<<acc, cs, ip, cid, dc, ds, seen>>)
+  /\ Keep(<<acc, cs, ip, cid, dc, ds, cc, seen>>)
 
 EvInfEnd ==
   /\ Is("inf_end")
@@ -360,7 +361,7 @@ EvInfEnd ==
                   K.v \in {"rej", "starved"} /\ K.why # "dist_before_start" => ~s.ended)
      IN Report(fails, 3)
   /\ l' = l + 1
-  /\ Keep(<<acc, cs, ip, cid, dc, ds, ss, seen>>)
+  /\ Keep(<<acc, cs, ip, cid, dc, ds, ss, cc, seen>>)
 
 EvEquivS ==
   /\ Is("equiv_s")
@@ -374,25 +375,190 @@ EvEquivS ==
            \o Iff("equiv_same_consumed", K.v = "done" => a.tin = b.tin)
      IN Report(fails, 3)
   /\ l' = l + 1
+  /\ Keep(<<acc, cs, ip, cid, dc, ds, ss, cc, seen>>)
+
+-----------------------------------------------------------------------------
+(* checksums (C16): every call is recomputed from the definition           *)
+EvCksum ==
+  /\ Is("cksum")
+  /\ LET e == E
+         want == IF e.isnull THEN (IF e.fn = "adler" THEN <<0, 1>> ELSE <<0, 0>>)
+                 ELSE IF e.fn = "adler" THEN AdlerUpdate(e.start, e.data)
+                 ELSE CrcUpdate(e.start, e.data)
+     IN Report(Iff(IF e.fn = "adler" THEN "adler32_equals_definition" ELSE "crc32_equals_definition",
+                   e.result = want), 1)
+  /\ l' = l + 1
+  /\ Keep(<<acc, cs, ip, cid, dc, ds, ss, cc, seen>>)
+
+-----------------------------------------------------------------------------
+(* C ABI shim (C17) and the compression bound (C15)                         *)
+
+EvCInit ==
+  /\ Is("c_init")
+  /\ Report(InitRules(E), 3)
+  /\ cc' = <<0, 1>>
+  /\ l' = l + 1
   /\ Keep(<<acc, cs, ip, cid, dc, ds, ss, seen>>)
+
+EvCCall ==
+  /\ Is("c_call")
+  /\ LET e == E
+         isdef == e.fn = "mz_deflate"
+         newcc == IF isdef THEN AdlerUpdate(cc, e.in_data) ELSE AdlerUpdate(cc, e.data)
+         \* inflate: the field is the checksum of what the decoder has produced into its
+         \* window, which runs ahead of what has been delivered; the two coincide at stream end
+         chk == IF isdef THEN e.ret \in {0, 1, -5} ELSE e.zlib /\ e.ret = 1
+     IN /\ Report(CallRules(e, newcc, chk), 5)
+        /\ cc' = newcc
+  /\ l' = l + 1
+  /\ Keep(<<acc, cs, ip, cid, dc, ds, ss, seen>>)
+
+EvCReset ==
+  /\ Is("c_reset")
+  /\ Report(CIff("c_reset_ok_and_totals_zero", E.ret = 0 /\ E.after.total_in = 0 /\ E.after.total_out = 0), 1)
+  /\ cc' = <<0, 1>>
+  /\ l' = l + 1
+  /\ Keep(<<acc, cs, ip, cid, dc, ds, ss, seen>>)
+
+EvCEnd ==
+  /\ Is("c_end")
+  /\ Report(CIff("c_end_ok_and_state_released", E.ret = 0 /\ ~E.after.has_state), 1)
+  /\ l' = l + 1
+  /\ Keep(<<acc, cs, ip, cid, dc, ds, ss, cc, seen>>)
+
+EvCMisuse ==
+  /\ Is("c_misuse")
+  /\ Report(CIff("c_misuse_returns_error_code", E.ret < 0), 1)
+  /\ l' = l + 1
+  /\ Keep(<<acc, cs, ip, cid, dc, ds, ss, cc, seen>>)
+
+EvCCompress ==
+  /\ Is("c_compress")
+  /\ LET e == E
+         want == IF e.twin_ret = 1 THEN 0 ELSE IF e.twin_ret = 0 THEN MZ_BUF_ERROR ELSE e.twin_ret
+         fails ==
+              CIff("c_compress_same_status_as_rust", e.ret = want)
+           \o CIff("c_compress_same_bytes_as_rust", e.ret = 0 => e.data = e.twin_data /\ e.dest_len = Len(e.data))
+           \o CIff("c_compress_never_fails_with_bound_sized_destination", e.dest_cap >= e.bound => e.ret = 0)
+           \o CIff("c_bound_function_value", e.bound = Bound(e.in_len))
+     IN Report(fails, 4)
+  /\ l' = l + 1
+  /\ Keep(<<acc, cs, ip, cid, dc, ds, ss, cc, seen>>)
+
+EvCCompressedValid ==
+  /\ Is("c_compressed_valid")
+  /\ Report(CIff("c_output_is_valid_stream_decoding_to_input",
+                 acc.ph = "done" /\ acc.endbyte = Len(Rec[cs].z)), 1)
+  /\ l' = l + 1
+  /\ Keep(<<acc, cs, ip, cid, dc, ds, ss, cc, seen>>)
+
+PIn == Rec[ip].p
+
+EvCUncompress ==
+  /\ Is("c_uncompress")
+  /\ LET e == E
+         n == Len(PIn)
+         fails ==
+              CIff("c_uncompress_fits", e.cap >= n => e.ret = 0 /\ e.dest_len = n /\ e.data = PIn)
+           \o CIff("c_uncompress_too_small_is_error", e.cap < n => e.ret < 0)
+     IN Report(fails, 2)
+  /\ l' = l + 1
+  /\ Keep(<<acc, cs, ip, cid, dc, ds, ss, cc, seen>>)
+
+EvCMemToMem ==
+  /\ Is("c_mem_to_mem")
+  /\ LET e == E
+         n == Len(PIn)
+         fails ==
+           IF e.dir = "inflate"
+             THEN CIff("c_tinfl_mem_to_mem", IF e.cap >= n THEN e.ret = n /\ e.data = PIn ELSE e.ret = -1)
+             ELSE CIff("c_tdefl_mem_to_mem", IF e.cap >= e.need THEN e.ret = e.need /\ e.data = e.want ELSE e.ret = 0)
+     IN Report(fails, 1)
+  /\ l' = l + 1
+  /\ Keep(<<acc, cs, ip, cid, dc, ds, ss, cc, seen>>)
+
+EvCMemToHeap ==
+  /\ Is("c_mem_to_heap")
+  /\ Report(CIff("c_tinfl_mem_to_heap", ~E.isnull /\ E.len = Len(PIn) /\ E.data = PIn), 1)
+  /\ l' = l + 1
+  /\ Keep(<<acc, cs, ip, cid, dc, ds, ss, cc, seen>>)
+
+EvCBound ==
+  /\ Is("c_bound")
+  /\ LET e == E
+         fails ==
+              CIff("bound_function_value", e.bound = Bound(e.n) /\ e.dbound = Bound(e.n))
+           \o CIff("one_call_compress_with_bound_sized_destination_succeeds", e.ret = 0)
+           \o CIff("output_within_bound", e.out_len <= e.bound)
+           \o CIff("unconstrained_output_within_bound", e.free_status = 1 /\ e.free_len <= e.bound)
+     IN Report(fails, 4)
+  /\ l' = l + 1
+  /\ Keep(<<acc, cs, ip, cid, dc, ds, ss, cc, seen>>)
+
+-----------------------------------------------------------------------------
+(* reset / determinism / snapshots (C18, C19): the harness performs the    *)
+(* same call on two objects that the property says are interchangeable and *)
+(* logs both results; they must be identical, bytes included.              *)
+EvPair ==
+  /\ Is("pair")
+  /\ Report(CIff("pair_equal_" \o E.what, E.a = E.b), 1)
+  /\ l' = l + 1
+  /\ Keep(<<acc, cs, ip, cid, dc, ds, ss, cc, seen>>)
+
+\* a block-boundary stop (C19): position, pending bits and output must be those of a
+\* non-final block end found by the acceptor
+EvBB ==
+  /\ Is("bb")
+  /\ LET e == E
+         z == Rec[cs].z
+         endbit == 8 * e.in_total - e.num_bits
+         hits == {i \in 1..Len(acc.blocks) : acc.blocks[i].endbit = endbit /\ ~acc.blocks[i].fin}
+         fails ==
+              CIff("boundary_has_fewer_than_8_pending_bits", e.num_bits \in 0..7)
+           \o CIff("boundary_is_end_of_a_non_final_block", acc.ph = "done" => hits # {})
+           \o CIff("boundary_pending_bits_are_top_bits_of_last_consumed_byte",
+                   e.num_bits \in 1..7 /\ e.in_total >= 1 =>
+                      e.bit_buf = z[e.in_total] \div Pow2(8 - e.num_bits))
+           \o CIff("boundary_output_position",
+                   acc.ph = "done" /\ hits # {} => \E i \in hits : acc.blocks[i].outend = e.out_total)
+     IN Report(fails, 4)
+  /\ l' = l + 1
+  /\ Keep(<<acc, cs, ip, cid, dc, ds, ss, cc, seen>>)
+
+EvNote ==
+  /\ Is("note")
+  /\ l' = l + 1
+  /\ Keep(<<acc, cs, ip, cid, dc, ds, ss, cc, nfail, nrules, seen>>)
+
+EvBBEnd ==
+  /\ Is("bb_end")
+  /\ Report(CIff("one_stop_per_non_final_block",
+                 acc.ph = "done" => E.count = Len(SelectSeq(acc.blocks, LAMBDA b : ~b.fin))), 1)
+  /\ l' = l + 1
+  /\ Keep(<<acc, cs, ip, cid, dc, ds, ss, cc, seen>>)
 
 -----------------------------------------------------------------------------
 Known == {"case", "input", "stream", "compressed", "roundtrip", "panic", "hang", "crash",
           "comp_new", "comp", "flushpoint", "defl", "defl_end",
-          "dnew", "dec", "dec_end", "equiv", "state_same", "vec", "sliceiter", "inf_new", "inf", "inf_end", "equiv_s"}
+          "dnew", "dec", "dec_end", "equiv", "state_same", "vec", "sliceiter", "inf_new", "inf", "inf_end", "equiv_s", "cksum",
+          "c_init", "c_call", "c_reset", "c_end", "c_misuse", "c_compress", "c_compressed_valid",
+          "c_uncompress", "c_mem_to_mem", "c_mem_to_heap", "c_bound", "pair", "bb", "bb_end", "note"}
 
 \* an event the spec has no action for is itself a failure (never silently skipped)
 EvUnknown ==
   /\ l <= Len(Rec) /\ E.ev \notin Known /\ (acc = NoAcc \/ Terminal(acc))
   /\ Report(<<"unknown_event_" \o E.ev>>, 1)
   /\ l' = l + 1
-  /\ Keep(<<acc, cs, ip, cid, dc, ds, ss, seen>>)
+  /\ Keep(<<acc, cs, ip, cid, dc, ds, ss, cc, seen>>)
 
 Next == \/ EvCase \/ EvInput \/ EvStream \/ AccRun \/ EvStreamDone
         \/ EvCompressed \/ EvRoundtrip \/ EvBad
         \/ EvCompNew \/ EvComp \/ EvFlushpoint \/ EvDefl \/ EvDeflEnd
         \/ EvDNew \/ EvDec \/ EvDecEnd \/ EvStateSame \/ EvEquiv \/ EvVec \/ EvSliceIter
-        \/ EvInfNew \/ EvInf \/ EvInfEnd \/ EvEquivS
+        \/ EvInfNew \/ EvInf \/ EvInfEnd \/ EvEquivS \/ EvCksum
+        \/ EvCInit \/ EvCCall \/ EvCReset \/ EvCEnd \/ EvCMisuse \/ EvCCompress \/ EvCCompressedValid
+        \/ EvCUncompress \/ EvCMemToMem \/ EvCMemToHeap \/ EvCBound
+        \/ EvPair \/ EvBB \/ EvBBEnd \/ EvNote
         \/ EvUnknown
 
 Spec == Init /\ [][Next]_vars
